@@ -37,13 +37,13 @@ func init() {
 			"collections whose items have different types are only navigated by names valid on every item type",
 		},
 		Run:    runC02,
-		Checks: map[string]func(*core.Env, []json.RawMessage){"resource": replayC02, "mixed": replayC02Mixed, "codes": replayC02Codes, "refs": replayC02Refs},
+		Checks: map[string]func(*core.Env, []json.RawMessage){"resource": replayC02, "mixed": replayC02Mixed, "codes": replayC02Codes, "refs": replayC02Refs, "dense": replayC02Dense},
 		Threshold: func(m *core.Merged) []string {
 			var r []string
 			if m.Cover["types"] < 146 {
 				r = append(r, fmt.Sprintf("only %d resource-type instances walked", m.Cover["types"]))
 			}
-			for _, k := range []string{"path-compared", "indexed-compared", "filtered-compared", "value-of-temporal", "mixed-type-container", "mixed-type-step", "code-value", "invalid-name", "absent-name", "wrong-root", "choice-step", "contained-step", "typed-reference", "primitive-value", "temporal-value"} {
+			for _, k := range []string{"path-compared", "indexed-compared", "filtered-compared", "value-of-temporal", "mixed-type-container", "mixed-type-step", "code-value", "dense-resource", "invalid-name", "absent-name", "wrong-root", "choice-step", "contained-step", "typed-reference", "primitive-value", "temporal-value"} {
 				if m.Cover[k] == 0 {
 					r = append(r, "never observed: "+k)
 				}
@@ -65,6 +65,13 @@ func runC02(env *core.Env) {
 			}
 			rich := k%2 == 1
 			c02Resource(env, string(md.Name()), env.Seed*1000+uint64(k), rich)
+		}
+	}
+	// one dense resource per type: every element of the type, two levels deep, is present and navigated
+	for _, md := range types {
+		n++
+		if env.Mine(n) {
+			c02Dense(env, string(md.Name()), env.Seed)
 		}
 	}
 	// a typed reference to every resource type
@@ -267,6 +274,22 @@ func c02Refs(env *core.Env, tn string) {
 	b.Subject.Display = &dtpb.String{Value: "shown"}
 	env.Cover("typed-reference-target")
 	c02Walk(env, "Basic", b, 0, 400)
+}
+
+func c02Dense(env *core.Env, tn string, seed uint64) {
+	defer env.In("dense", tn, seed)()
+	g := gen.NewDenseResGen(core.NewRng(seed, "c02-dense", tn))
+	res := g.Resource(gen.ResourceTypeByName(tn))
+	env.Cover("dense-resource")
+	c02Walk(env, tn, res, seed, 1200)
+}
+
+func replayC02Dense(env *core.Env, a []json.RawMessage) {
+	var tn string
+	var seed uint64
+	json.Unmarshal(a[0], &tn)
+	json.Unmarshal(a[1], &seed)
+	c02Dense(env, tn, seed)
 }
 
 func replayC02Refs(env *core.Env, a []json.RawMessage) {
